@@ -108,10 +108,12 @@ func (st *State) memmove(dst, src *Term, n int) {
 	s := st.constAddr(src, "copy src")
 	so, soff := st.resolve(s, n, "copy source")
 	st.noteAccess(so, soff, n, false)
-	so.ensure()
 	tmp := make([]*Term, n)
-	copy(tmp, so.bytes[soff:soff+n])
+	if so.bytes != nil {
+		copy(tmp, so.bytes[soff:soff+n])
+	}
 	do, doff := st.resolve(d, n, "copy destination")
+	do = st.wobj(do)
 	st.noteAccess(do, doff, n, true)
 	do.ensure()
 	copy(do.bytes[doff:doff+n], tmp)
